@@ -79,11 +79,13 @@ def cmonFor : String → List CMon
   | "C09" => [verifyFresh]
   | "C13" => [leaseStepDown, calmStable]
   | "C20" => [restoreOK, finalStatesEqual, allResolved]
+  | "C10" => [restartable, streamsInOrder]
+  | "C11" => [restartable, ackedSurvive]
   | "C12" => [converged]
   | "C17" => [allResolved]
   | "C18" => [notifyAlternates]
   | _ => [oneSenderPerTerm, oneGrantPerTerm, streamsAgree, streamsInOrder, clientOutcomes, barrierOK, ackedSurvive,
-          logsAgree, termsMonotone, retainedAgree, commitLeLast, converged, allResolved, notifyAlternates, verifyFresh, configGated, currentTermRule, isolatedTermConstant]
+          logsAgree, termsMonotone, retainedAgree, commitLeLast, converged, allResolved, notifyAlternates, verifyFresh, configGated, currentTermRule, isolatedTermConstant, restartable]
 
 def cJudgeWith (ms : List CMon) (_caseLine implLine : String) : String :=
   match parseHist implLine with
